@@ -85,11 +85,23 @@ func runNetSuite(seed uint64, n int, out *Out, stats *Stats) {
 		}
 		seeds := map[string]int{}
 		var seedSx []string
-		for k := 0; k < r.Intn(4); k++ {
+		seedOnly := r.Chance(1, 3) // a node that learns nothing: every round draws from the seeds
+		ns := r.Intn(4)
+		if seedOnly {
+			ns = 2 + r.Intn(4)
+		}
+		for k := 0; k < ns; k++ {
 			tv := pool[r.Intn(len(pool))]
+			if seedOnly {
+				tv = pool[r.Intn(10)]
+			}
 			if _, ok := seeds[tv]; !ok {
-				seeds[tv] = 0
-				seedSx = append(seedSx, sx(atom(tv), "0"))
+				sc := 0
+				if seedOnly {
+					sc = r.Intn(3)
+				}
+				seeds[tv] = sc
+				seedSx = append(seedSx, sx(atom(tv), fmt.Sprint(sc)))
 			}
 		}
 		nb := network.NewNeighborhood(creator, hostIp, hostPort, max, seeds, &ScriptWatch{fallback: func() int64 { return time.Now().UnixNano() }})
@@ -98,7 +110,30 @@ func runNetSuite(seed uint64, n int, out *Out, stats *Stats) {
 		var ops []string
 		rounds := 0
 		for step := 0; step < 4+r.Intn(10); step++ {
-			switch k := r.Intn(10); {
+			// reachability changes between rounds: one target goes down or comes back
+			if r.Chance(1, 3) {
+				tv := pool[r.Intn(len(pool))]
+				if sp, ok := splitTab[tv]; ok {
+					key := sp[0] + "|" + sp[1]
+					creator.mu.Lock()
+					if creator.resolve[key] == "" {
+						creator.resolve[key] = net.JoinHostPort(sp[0], sp[1])
+						if strings.Contains(sp[0], "example.org") {
+							creator.resolve[key] = net.JoinHostPort("10.0.0.77", sp[1])
+						}
+						ops = append(ops, sx("setres", atom(sp[0]), atom(sp[1]), atom(creator.resolve[key])))
+					} else {
+						creator.resolve[key] = ""
+						ops = append(ops, sx("setres", atom(sp[0]), atom(sp[1]), "fail"))
+					}
+					creator.mu.Unlock()
+				}
+			}
+			k := r.Intn(10)
+			if seedOnly {
+				k = 9
+			}
+			switch {
 			case k < 4:
 				var ts []string
 				for j := 0; j < 1+r.Intn(5); j++ {
@@ -185,7 +220,11 @@ func runNetSuite(seed uint64, n int, out *Out, stats *Stats) {
 func opKinds(ops []string) []string {
 	var l []string
 	for _, o := range ops {
-		l = append(l, o[1:2])
+		if strings.HasPrefix(o, "(setres") {
+			l = append(l, "r")
+		} else {
+			l = append(l, o[1:2])
+		}
 	}
 	return l
 }
